@@ -282,6 +282,22 @@ pub fn cmd_comp(a: &Args) {
         let mut qbad = q.clone();
         qbad[0] = 3;
         push(2, 64, 2, &p, &qbad, &r, "non-zero quotient in the warm-up");
+        // warm-up slots holding values that only LOOK like zero after 32-bit arithmetic on (quotient << parameter)
+        for (slot, qv) in [(0usize, 1u32 << 31), (1, 1 << 31), (0, 1 << (32 - p[0].max(1) as u32)), (1, 3 << (32 - p[0].max(1) as u32).min(30)), (0, u32::MAX), (1, 1 << 18), (0, 1 << 22)] {
+            let mut qb = q.clone();
+            qb[slot] = qv;
+            push(2, 64, 2, &p, &qb, &r, &format!("warm-up slot {slot} holds quotient {qv}"));
+            let mut rb = r.clone();
+            rb[slot] = 1;
+            push(2, 64, 2, &p, &q, &rb, &format!("warm-up slot {slot} holds remainder 1"));
+        }
+        for pp in [1u8, 4, 14] {
+            let pv = vec![pp; 4];
+            let (_, q2, r2) = mk_residual(&mut rng, 2, 64, 2, pp, 3);
+            let mut qb = q2.clone();
+            qb[1] = 1 << (32 - pp as u32);
+            push(2, 64, 2, &pv, &qb, &r2, &format!("warm-up quotient 2^(32-{pp}) under parameter {pp}"));
+        }
         push(0, 65536, 0, &[3], &vec![0u32; 65536], &vec![1u32; 65536], "block size 65536");
         push(0, 70000, 0, &[3], &vec![0u32; 70000], &vec![1u32; 70000], "block size 70000");
         // quotient sums around 2^32 (SIMD vs scalar sum switch): only counted, never materialised
